@@ -181,7 +181,7 @@ def cases_tdot_sector(g, tier):
 def cases_linear(g, tier):
     """a+b, a-b, add(a,b,c; amplitudes), vdot(a,b,conj) on tensors with identical signature/charge"""
     sym, r = g['sym'], g['rank']
-    ms = GL.msize(sym, 2 if (tier == 'quick' and r >= 3) else 3)
+    ms = GL.msize(sym, 2 if (tier == 'quick' and r >= 2) else 3)
     nch = min(2, len(GL.CHARGES[sym]))
     lvl = 0 if tier == 'quick' else 1
     V = GT.variants(r, lvl)
